@@ -196,13 +196,13 @@ class Interp:
             except PyExc as ex:
                 if self.ctx.provable(znot(c)):
                     return self.ev(e.orelse, fr)
-                raise Unsupported('contract expression may raise %s' % ex.cls)
+                raise
             try:
                 b = self.ev(e.orelse, fr)
             except PyExc as ex:
                 if self.ctx.provable(c):
                     return a
-                raise Unsupported('contract expression may raise %s' % ex.cls)
+                raise
             return self.ite(c, a, b)
         return self.ev(e.body if self.ctx.branch(c) else e.orelse, fr)
 
@@ -251,7 +251,7 @@ class Interp:
                     if decided:
                         vals.append(not is_and)
                         break
-                    raise Unsupported('contract expression may raise %s (line %s)' % (ex.cls, getattr(x, 'lineno', '?')))
+                    raise          # an enclosing operator may still short-circuit this operand away
                 if is_and and t is False:
                     vals.append(False)
                     break
@@ -547,7 +547,17 @@ class Interp:
             if isinstance(l, SRec) and isinstance(r, SRec) and set(l.fields) == set(r.fields):
                 return zand(*[self.equal(l.fields[k], r.fields[k]) for k in l.fields])
             if isinstance(l, SList) or isinstance(r, SList):
-                raise Unsupported('equality on symbolic list')
+                if isinstance(r, SList) and not isinstance(l, SList):
+                    l, r = r, l
+                if isinstance(r, (list, tuple)):
+                    return zand(to_int(l.n) == len(r), *[self.equal(l.elem(z3.IntVal(i)), x) for i, x in enumerate(r)])
+                if isinstance(r, SList):
+                    i = z3.Int('i!leq%d' % self.ctx.counter.setdefault('leq', 0))
+                    self.ctx.counter['leq'] += 1
+                    return z3.And(to_int(l.n) == to_int(r.n),
+                                  z3.ForAll([i], z3.Implies(z3.And(i >= 0, i < to_int(l.n)),
+                                                            to_bool(self.equal(l.elem(i), r.elem(i))))))
+                return False
             return False
         try:
             return bool(l == r)
@@ -598,6 +608,8 @@ class Interp:
         if l is None or r is None:
             raise PyExc('TypeError', line, 'arithmetic with None')
         if not ((is_intlike(l) or is_boollike(l)) and (is_intlike(r) or is_boollike(r))):
+            if (is_intlike(l) or is_strlike(l) or isinstance(l, SObj)) and (is_intlike(r) or is_strlike(r) or isinstance(r, SObj)):
+                raise PyExc('TypeError', line, 'unsupported operand types')
             raise Unsupported('binop %s on %r, %r (line %s)' % (t.__name__, l, r, line))
         if t is ast.Add: return to_int(l) + to_int(r)
         if t is ast.Sub: return to_int(l) - to_int(r)
